@@ -32,6 +32,12 @@ SET_RELS = [("M", "sections", "S"), ("M", "symbols", "Y"),
             ("M", "proxies", "P"), ("S", "byte_intervals", "I"),
             ("I", "blocks", "CD")]
 NAMES = ["", "a", "b", "main"]
+# how a batch of values is handed to a collection method: re-iterable
+# containers and one-shot iterators (a fresh one is made per call)
+ARG_KINDS = [("list", list), ("tuple", tuple), ("iter", iter),
+             ("generator", lambda xs: (x for x in xs)),
+             ("reversed", lambda xs: reversed(xs[::-1])),
+             ("map", lambda xs: map(lambda x: x, xs))]
 
 
 class World:
@@ -247,6 +253,13 @@ class World:
                         world.kind(gt, o), k),
                         "%s.%s is %r, the model says %r (after %s)"
                         % (l, k, got, v, after)))
+        if F and self.ctx.prop == "C16" and after.startswith(
+                ("set.", "list.", "ctor")):
+            # C16: "a failed operation leaves the collection and its
+            # elements consistent", contents/ownership after every call
+            F = [("C16", "world-inconsistent-after:%s:%s" % (
+                after.split(":")[0], f[1].split(":")[0]), f[2])
+                for f in F] + F
         if F:
             # report the finding that belongs to the running property first
             F.sort(key=lambda f: (f[0] != self.ctx.prop,))
@@ -519,11 +532,13 @@ class World:
             xs = [pick_mod() for _ in range(rnd.randint(0, 3))]
             xs = list(dict.fromkeys(xs))
             incoming = xs
+            wrap = rnd.choice(ARG_KINDS)
+            args = {"arg_kind": wrap[0]}
             if op == "extend":
-                fn = lambda T: T.extend([self.obj[x] for x in xs])
+                fn = lambda T: T.extend(wrap[1]([self.obj[x] for x in xs]))
             else:
                 def fn(T):
-                    T += [self.obj[x] for x in xs]
+                    T += wrap[1]([self.obj[x] for x in xs])
         elif op == "delitem":
             i = rand_index()
             args = {"i": i}
@@ -540,8 +555,11 @@ class World:
             s = rand_slice()
             xs = list(dict.fromkeys(pick_mod() for _ in range(
                 rnd.randint(0, 3))))
-            incoming, args = xs, {"slice": [s.start, s.stop, s.step]}
-            fn = lambda T: T.__setitem__(s, [self.obj[x] for x in xs])
+            wrap = rnd.choice(ARG_KINDS)
+            incoming, args = xs, {"slice": [s.start, s.stop, s.step],
+                                  "arg_kind": wrap[0]}
+            fn = lambda T: T.__setitem__(s, wrap[1](
+                [self.obj[x] for x in xs]))
         elif op == "pop":
             fn = lambda T: T.pop()
         elif op == "pop_i":
